@@ -554,3 +554,126 @@ func ruleStoreRMWOneSection(r *Run) {
 	}
 	r.check(n >= 1, "datatype:locked-store-rmw", fmt.Sprintf("%d locked read-modify-writes of stored values", n), "none found: rule needs review", "-")
 }
+
+// ---------------------------------------------------------------------------------------------
+// R20.21 — a worker's error report cannot block the Wait that precedes its receiver
+
+func init() {
+	register(ruleDef{ID: "R20.21", Prop: "C20", Tier: "quick", Floor: 1,
+		Title: "a worker's error report cannot wedge the request: where a function waits for its worker goroutines (WaitGroup.Wait) before it first receives from an error channel, that channel is buffered (a worker that sends on an unbuffered channel before its Done blocks for ever, and so does the Wait)",
+		Fn:    ruleErrChanBuffered})
+}
+
+func ruleErrChanBuffered(r *Run) {
+	w := r.W
+	n := 0
+	for _, f := range w.RepoFuncs {
+		if len(f.Blocks) == 0 || f.Parent() != nil || strings.HasSuffix(w.fposFile(f), "_test.go") {
+			continue
+		}
+		p := relPkg(pkgPathOf(f))
+		if !strings.HasPrefix(p, "datatype/") && p != "datastore" && p != "server" && !strings.HasPrefix(p, "storage") {
+			continue
+		}
+		// Wait calls in f itself
+		var waits []ssa.Instruction
+		for _, c := range calls(f) {
+			if cal := staticCallee(c); cal != nil && cal.String() == "(*sync.WaitGroup).Wait" {
+				waits = append(waits, c)
+			}
+		}
+		if len(waits) == 0 {
+			continue
+		}
+		k := 0
+		for _, b := range f.Blocks {
+			for _, in := range b.Instrs {
+				mk, ok := in.(*ssa.MakeChan)
+				if !ok {
+					continue
+				}
+				buffered := true
+				if sz, isK := constInt(mk.Size); isK && sz == 0 {
+					buffered = false
+				}
+				ch, ok := mk.Type().Underlying().(*types.Chan)
+				if !ok || !isErrorType(ch.Elem()) {
+					continue
+				}
+				// the channel variable (cell) when captured
+				var handles []ssa.Value
+				handles = append(handles, mk)
+				if mk.Referrers() != nil {
+					for _, ref := range *mk.Referrers() {
+						if st, ok := ref.(*ssa.Store); ok && st.Val == ssa.Value(mk) {
+							handles = append(handles, st.Addr)
+						}
+					}
+				}
+				// receives in f (not in closures): every one is behind a Wait?
+				var recvs []ssa.Instruction
+				isHandle := func(v ssa.Value) bool {
+					for _, h := range handles {
+						if v == h {
+							return true
+						}
+						if ld, ok := v.(*ssa.UnOp); ok && ld.Op == token.MUL && ld.X == h {
+							return true
+						}
+					}
+					return false
+				}
+				for _, b2 := range f.Blocks {
+					for _, in2 := range b2.Instrs {
+						switch x := in2.(type) {
+						case *ssa.UnOp:
+							if x.Op == token.ARROW && isHandle(x.X) {
+								recvs = append(recvs, x)
+							}
+						case *ssa.Select:
+							for _, st := range x.States {
+								if st.Dir == types.RecvOnly && isHandle(st.Chan) {
+									recvs = append(recvs, x)
+								}
+							}
+						}
+					}
+				}
+				if len(recvs) == 0 {
+					continue
+				}
+				allBehind := true
+				for _, rc := range recvs {
+					behind := false
+					for _, wt := range waits {
+						if domInstr(wt, rc) {
+							behind = true
+						}
+					}
+					if !behind {
+						allBehind = false
+					}
+				}
+				// a goroutine started by f sends on it
+				sends := false
+				for _, g := range withClosures(f) {
+					if g == f {
+						continue
+					}
+					if sendsOn(w, g, handles, 0) {
+						sends = true
+					}
+				}
+				if !sends {
+					continue
+				}
+				n++
+				k++
+				r.check(buffered || !allBehind, fmt.Sprintf("%s:error-chan#%d:report-cannot-block-the-wait", fname(f), k),
+					"the channel is buffered, or the function receives from it while its workers run",
+					"workers report errors on an unbuffered channel that the function only reads after WaitGroup.Wait: a worker that hits an error blocks in the send before its Done, Wait never returns and the request is never answered", w.pos(mk.Pos()))
+			}
+		}
+	}
+	r.check(n >= 1, "repo:unbuffered-error-channels", fmt.Sprintf("%d error channels fed by workers of a waiting function", n), "none found: rule needs review", "-")
+}
